@@ -522,12 +522,14 @@ class AuditHostKey(Harness):
     prop, ob = PROP, 'O3'
     width = 64
 
-    def __init__(self, bits, names):
-        self.bits, self.names = bits, tuple(names)
-        self.name = 'audithostkey-%d-%s' % (bits, '+'.join(names))
+    def __init__(self, bits, names, first_fails=None):
+        # first_fails: the probe with the first RSA name gets no usable answer (connection closed / a packet of another type); the family's next advertised
+        # name is then probed and answers - the presented key is measured and reported all the same
+        self.bits, self.names, self.first_fails = bits, tuple(names), first_fails
+        self.name = 'audithostkey-%d-%s%s' % (bits, '+'.join(names), ('-first-' + first_fails) if first_fails else '')
 
     def params(self):
-        return {'bits': self.bits, 'names': list(self.names)}
+        return {'bits': self.bits, 'names': list(self.names), 'first_fails': self.first_fails}
 
     def inputs(self):
         return {'unk': zx.fresh_str('unk', 2, ((0x61, 0x7A),))}
@@ -545,6 +547,10 @@ class AuditHostKey(Harness):
         pk = AE.frame(AE.kexinit_payload(['curve25519-sha256'], list(self.names), ['aes128-ctr', inp['unk']], ['hmac-sha2-256']))
         reply = AE.frame(bytes([31]) + S(self.blob()) + S(b'\x05' * 32) + S(b'sig'))
         conns = [AE.Conn([BANNER, pk])] + [AE.Conn([BANNER, pk, reply]) for _ in range(4)]
+        if self.first_fails == 'closed':
+            conns.insert(1, AE.Conn([BANNER, pk], 'close'))
+        elif self.first_fails == 'other-packet':
+            conns.insert(1, AE.Conn([BANNER, pk, AE.frame(bytes([1]) + AE.u32(2) + S(b'bye') + S(b''))], 'close'))
         cj = OL.CaptureJson()
         with AE.patched(M.ssh_audit, json=cj):
             r = AE.run_audit(M, conns, json=True)
@@ -559,7 +565,7 @@ class AuditHostKey(Harness):
             yield 'no-exception', False
             return
         b = self.bits
-        yield 'one-probe-for-the-whole-rsa-family', obs['nconn'] == 2
+        yield 'one-probe-for-the-whole-rsa-family', obs['nconn'] == (3 if self.first_fails else 2)
         yield 'key-size-reported-for-every-advertised-rsa-name', [(a, sz) for a, sz, _, _ in obs['keys']] == [(n, b) for n in self.names]
         small = 'using small %d-bit modulus' % b
         for a, sz, f, w in obs['keys']:
@@ -614,6 +620,10 @@ def tasks(tier):
     for bits in ((1024, 2048, 3072) if q else (1024, 1536, 2048, 3008, 3072, 4096, 8192)):
         for names in ((('ssh-rsa',), ('rsa-sha2-512', 'rsa-sha2-256', 'ssh-rsa')) if q else (('ssh-rsa',), ('rsa-sha2-256',), ('rsa-sha2-512', 'rsa-sha2-256', 'ssh-rsa'), ('ssh-rsa', 'rsa-sha2-512'))):
             T.append(AuditHostKey(bits, names))
+    for bits in ((2048,) if q else (1024, 2048, 3072)):
+        for ff in ('closed', 'other-packet'):
+            T.append(AuditHostKey(bits, ('rsa-sha2-512', 'rsa-sha2-256', 'ssh-rsa'), ff))
+            T.append(AuditHostKey(bits, ('ssh-rsa', 'rsa-sha2-512'), ff))
     for types in [('ssh-rsa',), ('rsa-sha2-512',), ('rsa-sha2-256', 'ssh-ed25519'), ('rsa-sha2-512', 'rsa-sha2-256', 'ssh-rsa'), ('ssh-ed25519', 'ssh-rsa'), ('ssh-ed25519-cert-v01@openssh.com', 'ssh-ed25519'),
                   ('ecdsa-sha2-nistp256', 'ssh-dss', 'ssh-ed25519'), ('rsa-sha2-256', 'ssh-rsa-cert-v01@openssh.com')]:
         T.append(Fingerprints(types))
@@ -624,7 +634,7 @@ def harness_by_name(name, params):
     if name.split(':')[1].startswith('truncatedblob'):
         return TruncatedBlob(params['where'])
     if name.split(':')[1].startswith('audithostkey'):
-        return AuditHostKey(params['bits'], params['names'])
+        return AuditHostKey(params['bits'], params['names'], params.get('first_fails'))
     k = name.split(':')[1].split('-')[0]
     p = params
     if k == 'extract':
